@@ -210,6 +210,26 @@ def check(chk):
         g = ecfg.guards_at(n.id)
         chk.ob("DELTA-1", "the loss after an eject is reported only when the recount is below the expected count", g.get("new_balls < old_balls") is True or g.get("old_balls > new_balls") is True,
                ej.where(c), detail=str(sorted(g.items())), construct=ej.ident, text="double-eject loss condition")
+    # hold-coil devices: a release in progress suspends holding (hold() returns early while the flag is set); the release's completion
+    # always ends that state - also when the device ran empty - or the coil is never energised again and the next ball that is counted in
+    # rolls straight out (count 1, device physically empty)
+    HC = "mpf/devices/ball_device/hold_coil_ejector.py"
+    hd = repo.func(HC, "HoldCoilEjector._hold_release_done")
+    ho = repo.func(HC, "HoldCoilEjector.hold")
+    ej1 = repo.func(HC, "HoldCoilEjector.eject_one_ball")
+    chk.analysed(hd, ho, ej1)
+    hcfg = hd.cfg()
+    clr = [n.id for n in hcfg.nodes if n.kind == "stmt" and isinstance(n.ast, ast.Assign) and src(n.ast.targets[0]) == "self.hold_release_in_progress" and src(n.ast.value) == "False"]
+    w = hcfg.must_pass(hcfg.entry.id, clr) if clr else [hcfg.entry.id]
+    chk.ob("HOLD-4", "every returning path of the hold release's completion ends the release state (also when no ball is left)", w is None, hd.where(), construct=hd.ident,
+           detail="hold() does nothing while hold_release_in_progress is set", text="hold release state ended", path=hcfg.fmt_path(w, hd) if w and len(w) > 1 else None, nontrivial=True)
+    sets_ = [x for x in walk_local(ej1.node) if isinstance(x, ast.Assign) and src(x.targets[0]) == "self.hold_release_in_progress" and src(x.value) == "True"]
+    arm_ = [c for c in ej1.calls() if call_attr(c) in ("add", "reset") and "delay" in src(c.func.value) and "_hold_release_done" in src(c)]
+    chk.ob("HOLD-4", "a release marks the state and arms its completion", bool(sets_) and bool(arm_), ej1.where(), construct=ej1.ident, text="hold release armed")
+    ocfg = ho.cfg()
+    en_ = [n for n, c in ocfg.calls_named("_enable_hold_coil")]
+    ok = bool(en_) and all(ocfg.guards_at(n.id).get("self.hold_release_in_progress") is False or ocfg.guards_at(n.id).get("not self.hold_release_in_progress") is True for n in en_)
+    chk.ob("HOLD-4", "the hold coil is not re-energised while a release is in progress", ok, ho.where(), construct=ho.ident, text="hold suspended during release", nontrivial=False)
     # available_balls transfer in setup_eject_chain
     f = repo.func(BD, "BallDevice.setup_eject_chain")
     chk.analysed(f)
@@ -619,6 +639,8 @@ def _entrance_windows_per_switch(chk, repo):
 def battery():
     from sa.battery import M
     return [
+        M("release state kept when the hold device ran empty", "mpf/devices/ball_device/hold_coil_ejector.py", "        self.hold_release_in_progress = False\n        self.ball_device.log.debug(\"No more balls. Hold coil will stay disabled.\")\n\n        # reenable hold coil if there are balls left\n        if self.ball_device.balls > 0:\n            self._enable_hold_coil()", "        if self.ball_device.balls > 0:\n            self.hold_release_in_progress = False\n            self._enable_hold_coil()", "HOLD-4"),
+        M("count-stable timer cancelled under another name", "mpf/devices/ball_device/entrance_switch_counter.py", "            self._settle_delay.remove(\"count_stable\")", "            self._settle_delay.remove(\"settle\")", "NAME-0"),
         M("one loss report for any number of extra balls", OB, "                    for _ in range(0, old_balls - new_balls):\n                        # Post that the ball is lost\n                        await self.ball_device.lost_idle_ball()\n                        # Cancel the eject queue for the lost ball\n", "                    await self.ball_device.lost_idle_ball()\n                    for _ in range(0, old_balls - new_balls):\n", "DELTA-1"),
         M("double-eject recount stored only when a queued request was cancelled", OB, "                    self.info_log(\"Necessary queue requests are cancelled. Updating ball count to %s.\" % new_balls)\n                    self.ball_device.ball_count_handler._set_ball_count(new_balls)  # pylint: disable=protected-access", "                            self.ball_device.ball_count_handler._set_ball_count(new_balls)  # pylint: disable=protected-access", "DELTA-1"),
         M("switch counter edits the configured ball switches", "mpf/devices/ball_device/switch_counter.py", "        self._switches = set(self.config['ball_switches'])\n        if self.config['jam_switch']:\n            self._switches.add(self.config['jam_switch'])", "        self._switches = self.config['ball_switches']\n        if self.config['jam_switch'] and self.config['jam_switch'] not in self._switches:\n            self._switches.append(self.config['jam_switch'])", "CONFIG-0"),
